@@ -204,6 +204,37 @@ def real_models(run, repo):
                           owner.module, fn,
                           sample='%s.get_%s with [GasPressureAdj, PiecewiseCovEffect]' % (kind, q))
                 n += 1
+    # several coverage effects, each addressed through its own per-species keyword block, in both orders: every
+    # model must see its own species' coverage (conditions of one model must not leak into the next)
+    for kind in ('Nasa', 'Nasa9', 'Shomate'):
+        I = Interp(repo, order=RankOrder(dict(ranks(2), xB=1, xC=1, xD=1, bB=5, bC=5, bD=5), const_ranks=True),
+                   max_depth=14)
+        D = I.D
+        fr = Frame(I, repo.module('pmutt'), {}, None, None)
+        T, P = D.sym('T'), D.sym('P')
+        covs = {}
+        for j in ('B', 'C', 'D'):
+            covs[j] = fr.apply(repo.cls('pmutt.mixture.cov.PiecewiseCovEffect'), [],
+                               {'name_i': 'sp', 'name_j': j, 'intervals': ListV([C(0), D.sym('b' + j)]),
+                                'slopes': ListV([D.sym('k0' + j), D.sym('k1' + j)])}, None)
+        Rk = D.sym('kb') * D.sym('Na') * D.sym('U<kcal>')
+        for order_ in (('B', 'C'), ('C', 'B'), ('D', 'B', 'C')):
+            o = species_obj(I, repo, kind, ListV([covs[j] for j in order_]))
+            blocks = {'%s_kwargs' % j: DictV({'x': D.sym('x' + j)}) for j in order_}
+            want = bare(I, repo, kind, o, 'HoRT', T)
+            for j in order_:
+                want = want + D.sym('k0' + j) * D.sym('x' + j) / (Rk * T)
+            owner, fn = repo.find_method(o.ci, 'get_HoRT')
+            got = I.call_method(o, 'get_HoRT', [], dict({'T': T, 'P': P}, **blocks))
+            if isinstance(got, SumV):
+                got = got.scalar + got.elem if got.elem.iszero() else got
+            run.check(same(got, want), 'REF.corrections', '%s.get_HoRT' % kind, 'coverage effects of several species',
+                      'with coverage effects of species %s attached and each coverage given in its own '
+                      '<name>_kwargs block the value is %s, expected polynomial + sum_j slope_j*x_j/RT'
+                      % (','.join(order_), show(got, 240)), owner.module, fn)
+            run.check(all(sorted(b.d) == ['x'] for b in blocks.values()), 'EFFECT.caller-dict', '%s.get_HoRT' % kind,
+                      'per-species blocks', 'a caller-supplied per-species dictionary was modified', owner.module, fn)
+            n += 2
     return n
 
 
